@@ -64,6 +64,16 @@ void orc_gp_done(int id, const char *what)
 	}
 }
 
+/* forked child: sections of threads that do not exist any more are over */
+void orc_forget_open_sections(void)
+{
+	int i;
+	uint64_t now = usim_seq();
+	for (i = 0; i < ncs; i++)
+		if (!cs[i].end)
+			cs[i].end = now;
+}
+
 int orc_overlaps(void) { return noverlap; }
 int orc_ncs(void) { return ncs; }
 int orc_ngp(void) { return ngp; }
